@@ -3,6 +3,7 @@ C14 — overwrite copies exactly the overlapping top-left block.
 -/
 import Matreex.Lemmas.OverwriteCross
 import Matreex.Lemmas.Matrix
+import Matreex.Lemmas.BridgeOverwrite
 
 namespace Matreex.C14
 open Matreex
@@ -142,5 +143,16 @@ def dst : Matrix String := ⟨.rowMajor, ⟨2, 3⟩, #["a", "b", "c", "d", "e", 
 def src : Matrix String := ⟨.colMajor, ⟨2, 3⟩, #["1", "2", "3", "4", "5", "6"]⟩   -- logical 3×2
 example : dst.Coh ∧ src.Coh := ⟨⟨rfl⟩, ⟨rfl⟩⟩
 example : (dst.overwrite (· ++ "'") src).map (·.data.toList) = .ok ["1'", "4'", "c", "2'", "5'", "f"] := by rfl
+
+/-- the `overwrite` the theorems of this file are about IS the source's function: the definition
+regenerated from `src/lib.rs` on every run (`Gen/OverwriteGen.lean`, translator T6 — the branch
+condition, the operands of each `min`, the loop bounds, every offset expression with checked
+arithmetic, the ranges handed to `get_unchecked_mut` / `get_unchecked`, the `skip` / `step_by`
+arguments: all taken from the Rust statements) leaves the same destination buffer, with the same
+faults, as the model's `Matrix.overwrite`, for all coherent matrices of representable size -/
+theorem overwrite_is_the_source (clone : α → α) (dst src : Matrix α)
+    (hd : dst.Coh) (hs : src.Coh) (hfd : dst.data.size ≤ usizeMax) (hfs : src.data.size ≤ usizeMax) :
+    Gen.Matrix.overwrite clone dst.hdr dst.data src.hdr src.data = (dst.overwrite clone src).map (·.data) :=
+  BridgeOverwrite.overwrite_bridge clone dst src hd hs hfd hfs
 
 end Matreex.C14
